@@ -270,6 +270,9 @@ class UCMM( device.Object ):
                     CM.request( con_data, addr=(addr[0],addr[1],con_id) ) # Converts request to reply
                 else:
                     # Unconnected session
+                    assert data.enip.CIP.send_data.CPF.item[0].type_id == 0x0000, \
+                        "EtherNet/IP CIP CPF NULL Address item required, not type 0x%04x" % (
+                            data.enip.CIP.send_data.CPF.item[0].type_id )
                     unc_send	= data.enip.CIP.send_data.CPF.item[1].unconnected_send
                     
                     # See what the request's parsed route_path segment(s) contains.  It might not be
